@@ -21,14 +21,46 @@ RULE = ('apply-level cases: per modelled relocation class, (S, P, addend, templa
         'random offset in .code, target symbol in a second section / absolute), laid out by a generated Layout so that '
         'the distance hits the same boundary pools, linked by ppci.api.link; non-trivial = distinct (class, S-P, addend, '
         'template) whose link or apply succeeds with a non-zero distance')
-EXPLANATION = ''
+EXPLANATION = ('Unbounded Coq theorems (all S, P, template bytes) over the hand model Model/Reloc.v. Classes WITH theorems: '
+               'riscv b_imm12, b_imm20, abs32_imm20+abs32_imm12 (lui/addi pair), rel_imm20+rel_imm12 (auipc/addi pair); '
+               'riscv:rvc cb_imm11, cbl_imm11 (same J-type scatter), bc_imm11, bc_imm8; arm imm24; x86_64 rel32, abs32; '
+               'data absaddr16/32/64; plus BitView.__setitem__ writes exactly bits [a,b) of the little-endian word, '
+               'get_symbol_id_value = section address + offset, Linker._do_relocation patches exactly the size bytes at the '
+               'relocation offset with apply\'s result, the exported table agrees with the model on every size. Refuted at '
+               'full strength (machine-checked witnesses, replayed through the real linker on every run, known findings): '
+               'positive overflow accepted by b_imm12/b_imm20/bc_imm11/imm24/rel32, addend ignored by every class but rel32, '
+               'Thumb bl_imm11 never writes J1/J2 (wrong target from 4 MiB). Classes modelled and checked by correspondence '
+               'and by the link-level spec oracle ONLY (no theorem): arm ldr_imm12, adr_imm12 (apply-level only), rel8 (unused '
+               'by any instruction); arm:thumb lit8, wrap_new11, rel8, bl_imm11, b_imm11_imm6 (apply-level only; its TODO '
+               'i1/i2 encoding is not checked against the ISA); x86_64 jmp8, abs64; riscv AbsAddr32Relocation (shadowed in '
+               'relocation_map by data absaddr32). NOT covered at all (listed in evidence stages.reloc_table.not_covered): '
+               'avr, m68k, microblaze, mips, msp430, or1k, xtensa, mcs6500 relocation classes')
 TRUSTED = ['hand model coq/Model/Reloc.v (cross-checked per run against Relocation.apply of every modelled class and '
            'against Linker._do_relocation through ppci.api.link)',
            'tools/py2coq.py for wrap_negative / align / encode_imm32 (Gen.bitfun)',
            'reading of the ISA manuals in coq/Spec/RelocSpec.v (RISC-V B/J/U/I/CJ/CB immediates, ARM B/BL/LDR literal, '
            'Thumb B/Bcc/BL/LDR literal, x86 rel8/rel32) and its Python twin tools/props/reloc_common.py']
-ASSUMPTIONS = []
-MANIFEST = {'text': '', 'note': '', 'technique': 'Coq proof over hand model + differential correspondence through the real linker'}
+ASSUMPTIONS = ['template bytes are bytes (0..255) and the slice handed to apply has Relocation.size() bytes (the linker asserts it)',
+               'exactness theorems assume the alignment the classes assert (S, P even / multiple of 4) and a distance in the ISA '
+               'range of the field; hi/lo pairs are exact modulo 2^32 for every S (RV32 address space) and never reject',
+               'ValueError escaping ppci.api.link counts as "the link fails" (Diag); AssertionError counts as Internal — both are '
+               'failures of the link, neither produces output',
+               'classes that OR into the field (arm ldr_imm12/adr_imm12, thumb b_imm11_imm6) and thumb bl_imm11 (J1/J2) are '
+               'searched with the assembler template only (field bits zero), which is what the assembler emits']
+MANIFEST = {
+    'text': 'proof (with recorded refutations): for the RISC-V (B/J/U+I pairs, RVC CJ/CB), ARM b/bl, x86-64 rel32/abs32 and data-word '
+            'relocation classes, unbounded Coq theorems over a hand model of Relocation.apply/BitView/Token writes show that for every '
+            'symbol address, site address and template in the ISA range of the field the patched bytes, read by an independent ISA '
+            'decoder, designate exactly the symbol address and leave all other instruction bits unchanged; that get_symbol_id_value is '
+            'section address + offset and that _do_relocation patches exactly the relocation site. The full-strength rejection and '
+            'addend clauses are REFUTED for the current code (positive overflow wraps; addend ignored except rel32; Thumb BL beyond '
+            '4 MiB) with machine-checked witnesses that are re-executed through ppci.api.link on every run and recorded as known findings. '
+            'Thumb/ARM literal loads, x86 jmp8/abs64 are modelled and checked differentially only; avr/m68k/microblaze/mips/msp430/or1k/'
+            'xtensa/mcs6500 relocation classes are not covered',
+    'note': 'trusted: Coq kernel; hand model Model/Reloc.v (cross-checked per run: ~1200 apply cases over 27 classes and ~400 links through '
+            'the real linker); py2coq for wrap_negative/align/encode_imm32; the reading of the ISA manuals in Spec/RelocSpec.v. '
+            'No axioms.',
+    'technique': 'Coq proof over hand model + differential correspondence through the real linker + ISA-decoder search oracle'}
 
 THEOREM_KINDS = []   # filled below: kinds with a c11_exact theorem
 
@@ -124,6 +156,313 @@ def apply_cases(ctx, n_rand):
     return cases, recs
 
 
+# ---------------------------------------------------------------- link-level: real linker vs spec oracle / model
+FIELD_MASK = {   # bits of the little-endian instruction word a relocation may change
+    'RvBImm12': 0xFE000F80, 'RvBImm20': 0xFFFFF000, 'RvcCBImm11': 0xFFFFF000, 'RvcCBlImm11': 0xFFFFF000,
+    'RvcBcImm11': 0x1FFC, 'RvcBcImm8': 0x1C7C, 'ArmImm24': 0x00FFFFFF, 'ThWrapNew11': 0x7FF, 'ThRel8': 0xFF,
+    'ThBlImm11': 0x07FF07FF, 'ThLit8': 0xFF, 'ArmLdrImm12': 0x00800FFF,
+    'RvAbs32Imm20': 0xFFFFF000, 'RvRelImm20': 0xFFFFF000, 'RvAbs32Imm12': 0xFFF00000, 'RvRelImm12': 0xFFF00000,
+}
+TEMPLATES = {    # instruction templates the assembler emits (field bits zero)
+    'RvBImm12': [0x63, 0x80, 0x20, 0x00], 'RvBImm20': [0xEF, 0, 0, 0], 'RvcCBImm11': [0x6F, 0, 0, 0],
+    'RvcCBlImm11': [0xEF, 0, 0, 0], 'RvcBcImm11': [0x01, 0xA0], 'RvcBcImm8': [0x01, 0xC0],
+    'ArmImm24': [0, 0, 0, 0xEB], 'ThWrapNew11': [0x00, 0xE0], 'ThRel8': [0x00, 0xD0], 'ThBlImm11': [0x00, 0xF0, 0x00, 0xF8],
+    'ThLit8': [0x00, 0x48], 'ArmLdrImm12': [0x00, 0x00, 0x1F, 0xE5],
+    'RvAbs32Imm20': [0xB7, 0x05, 0, 0], 'RvRelImm20': [0x97, 0x05, 0, 0], 'RvAbs32Imm12': [0x93, 0x85, 0x05, 0],
+    'RvRelImm12': [0x93, 0x85, 0x05, 0],
+}
+PAIRS = {'RvAbs32Imm20': 'RvAbs32Imm12', 'RvRelImm20': 'RvRelImm12'}
+
+
+def make_linker_spy(relax=False):
+    from ppci.binutils.linker import Linker
+
+    class Spy(Linker):
+        def do_relaxations(self):
+            if relax:
+                super().do_relaxations()
+
+        def do_relocations(self):
+            self.pre = snapshot(self.dst)
+            super().do_relocations()
+    return Spy
+
+
+def snapshot(dst):
+    return {'sections': [(s.name, s.address, list(s.data)) for s in dst.sections],
+            'symbols': [(y.id, y.undefined, y.section, y.value) for y in dst.symbols],
+            'relocations': [(r.reloc_type, r.symbol_id, r.section, r.offset, r.addend) for r in dst.relocations]}
+
+
+def build_and_link(arch_name, relocs, code, target_off, P_base, S, absolute=False, relax=False):
+    """one object: section 'code' (bytes `code`, relocations [(name, offset, addend)] all against symbol 't'),
+    section 'tgt' holding 't' at target_off (or 't' absolute = S). Layout places code at P_base and tgt so that
+    address(t) = S. Returns (spy linker, output object) or raises."""
+    from ppci.api import get_arch
+    from ppci.binutils.objectfile import ObjectFile, RelocationEntry
+    from ppci.binutils.layout import Layout, Memory, Section as LSection
+    arch = get_arch(arch_name)
+    obj = ObjectFile(arch)
+    cs = obj.create_section('code')
+    cs.add_data(bytes(code))
+    if absolute:
+        obj.add_symbol(1, 't', 'global', None, None, 'object', 0)    # undefined here; defined by extra_symbols
+    else:
+        ts = obj.create_section('tgt')
+        ts.add_data(bytes(target_off + 8))
+        obj.add_symbol(1, 't', 'global', target_off, 'tgt', 'object', 0)
+    for (name, off, addend) in relocs:
+        obj.add_relocation(RelocationEntry(name, 1, 'code', off, addend))
+    layout = Layout()
+    m1 = Memory('m1')
+    m1.location = P_base
+    m1.size = 1 << 40
+    m1.add_input(LSection('code'))
+    mems = [m1]
+    if not absolute:
+        m2 = Memory('m2')
+        m2.location = S - target_off
+        m2.size = 1 << 40
+        m2.add_input(LSection('tgt'))
+        mems = [m1, m2] if m2.location >= P_base else [m2, m1]
+    for m in mems:
+        layout.add_memory(m)
+    linker = make_linker_spy(relax)(arch, None)
+    out = linker.link([obj], layout=layout, extra_symbols={'t': S} if absolute else None)
+    return linker, out
+
+
+def kind_term(sn_ids, snap):
+    """Coq term: secs_out <$> do_relocations secs syms rels for a pre-relocation snapshot"""
+    name2kind = {}
+    secs = '[%s]' % '; '.join('mkSec %d %s %s' % (sn_ids[n], w(a), to_term(d)) for (n, a, d) in snap['sections'])
+    syms = '[%s]' % '; '.join('mkSym %d %s %s %s' % (i, 'true' if u else 'false',
+                                                     ('(Some %d)' % sn_ids[s]) if s is not None else 'None',
+                                                     w(v if v is not None else 0))
+                              for (i, u, s, v) in snap['symbols'])
+    return secs, syms
+
+
+def link_case(ctx, arch_name, kind, D, A, tmpl, pre_pad, rnd_tail):
+    """returns a record: outcome of the real link and the oracle's verdict"""
+    name = KINDS[kind][3]
+    size = KINDS[kind][4]
+    specs = rc.single_specs()
+    absolute = kind in ABSOLUTE
+    P_base = 1 << 33
+    off = pre_pad
+    code = [0x13, 0, 0, 0] * (pre_pad // 4) + list(tmpl) + list(rnd_tail)
+    relocs = [(name, off, A)]
+    pair = PAIRS.get(kind)
+    if pair:
+        code = [0x13, 0, 0, 0] * (pre_pad // 4) + list(tmpl) + list(TEMPLATES[pair]) + list(rnd_tail)
+        relocs.append((KINDS[pair][3], off + 4, A))
+    P = P_base + off
+    S = D if absolute else P + D
+    toff = S % 4 + 4 * (abs(D) % 3)       # the output section is 4-aligned: keep S - toff a multiple of 4
+    rec = {'fn': 'link', 'arch': arch_name, 'reloc': name, 'distance': D, 'addend': A, 'template': list(tmpl),
+           'offset_in_section': off, 'P': P, 'S': S}
+    if S - toff < 0 and not absolute:
+        return None
+    try:
+        linker, out = build_and_link(arch_name, relocs, code, toff, P_base, S, absolute)
+    except Exception as ex:   # noqa: BLE001
+        rec['outcome'] = 'error:' + type(ex).__name__
+        return rec
+    rec['outcome'] = 'ok'
+    sec = out.get_section('code')
+    data = list(sec.data)
+    rec['snap'] = linker.pre
+    rec['final'] = [(s.name, s.address, list(s.data)) for s in out.sections]
+    wd = rc.word(data[off:off + size])
+    tw = rc.word(tmpl)
+    mask = FIELD_MASK.get(kind, (1 << (8 * size)) - 1)
+    rec['frame_ok'] = (wd & ~mask) == (tw & ~mask) and data[:off] == code[:off] and \
+        data[off + size * (2 if pair else 1):] == code[off + size * (2 if pair else 1):]
+    if pair:
+        wlo = rc.word(data[off + 4:off + 8])
+        if kind == 'RvAbs32Imm20':
+            got = (rc.rv_u_imm(wd) + rc.rv_i_imm(wlo)) % (1 << 32)
+        else:
+            got = (P + rc.rv_u_imm(wd) + rc.rv_i_imm(wlo)) % (1 << 32)
+        rec['reads'] = got
+        rec['expected'] = (S + A) % (1 << 32)
+        rec['ignoring_addend'] = S % (1 << 32)
+        rec['fits'] = True
+    elif kind in specs:
+        sp = specs[kind]
+        rec['reads'] = sp['reads'](wd, P)
+        rec['expected'] = S + A
+        rec['ignoring_addend'] = S
+        rec['fits'] = sp['fits'](S, A, P)
+        rec['fits0'] = sp['fits'](S, 0, P)
+    return rec
+
+
+def verdict(kind, rec):
+    """'ok' | 'known:range_lax' | 'known:addend_ignored' | 'known:thumb_bl' | 'strict' | 'violation:<what>'"""
+    if rec['outcome'] != 'ok':
+        return 'rejected_fits' if rec.get('fits_hint') else 'rejected'
+    if 'reads' not in rec:
+        return 'ok'
+    if not rec['frame_ok']:
+        return 'violation:bits outside the field changed'
+    A = rec['addend']
+    if rec['fits'] and rec['reads'] == rec['expected']:
+        return 'ok'
+    if A != 0 and kind != 'X86Rel32' and rec['reads'] == rec['ignoring_addend']:
+        return 'known:addend_ignored'
+    sp = rc.single_specs().get(kind)
+    if sp and sp.get('pcrel') and not sp.get('unsigned') and not sp.get('signmag'):
+        width, scale, bias = sp['width'], sp['scale'], sp['bias']
+        d = rec['S'] + (A if kind == 'X86Rel32' else 0) - rec['P'] - bias
+        span = (1 << width) * scale
+        if kind == 'ThBlImm11':
+            if abs(d) >= (1 << 22) and -(1 << 24) <= d < (1 << 24):
+                return 'known:thumb_bl'
+        elif (1 << (width - 1)) * scale <= d < span and rec['reads'] == rec['ignoring_addend'] - span + (A if kind == 'X86Rel32' else 0):
+            return 'known:range_lax'
+        elif kind in ('X86Rel32', 'X86Jmp8') and -span <= d < -(1 << (width - 1)) * scale and \
+                rec['reads'] == rec['ignoring_addend'] + span + (A if kind == 'X86Rel32' else 0):
+            return 'known:range_lax'
+    if not rec['fits']:
+        return 'violation:unrepresentable value accepted and decoded to another address'
+    return 'violation:field decodes to %s, symbol is at %s' % (rec['reads'], rec['expected'])
+
+
+LINK_KINDS = [('riscv', 'RvBImm12'), ('riscv', 'RvBImm20'), ('riscv', 'RvAbs32Imm20'), ('riscv', 'RvRelImm20'),
+              ('riscv:rvc', 'RvcCBImm11'), ('riscv:rvc', 'RvcCBlImm11'), ('riscv:rvc', 'RvcBcImm11'),
+              ('riscv:rvc', 'RvcBcImm8'), ('arm', 'ArmImm24'), ('arm', 'ArmLdrImm12'), ('arm:thumb', 'ThWrapNew11'),
+              ('arm:thumb', 'ThRel8'), ('arm:thumb', 'ThBlImm11'), ('arm:thumb', 'ThLit8'), ('x86_64', 'X86Rel32'),
+              ('x86_64', 'X86Jmp8'), ('x86_64', 'X86Abs32'), ('x86_64', 'X86Abs64'), ('x86_64', 'DataAbs32'),
+              ('riscv', 'DataAbs32'), ('arm', 'DataAbs64'), ('x86_64', 'DataAbs16')]
+LAX_WITNESS = {   # kind -> canonical distance S - P of the range finding (first unrepresentable positive value)
+    'RvBImm12': 4100, 'RvBImm20': 1 << 20, 'RvcCBImm11': 1 << 20, 'RvcCBlImm11': 1 << 20, 'RvcBcImm11': 2048,
+    'RvcBcImm8': 256, 'ArmImm24': (1 << 25) + 8, 'X86Rel32': 1 << 31, 'X86Jmp8': 128 + 1,
+}
+
+
+def known_entries():
+    """the known-finding entries of C11 (DESIGN §6 items 23, 24 + Thumb BL), one per (class, witness)"""
+    out = []
+    for arch_name, kind in LINK_KINDS:
+        name = KINDS[kind][3]
+        wd, scale, bias = WIDTHS[kind]
+        if kind in LAX_WITNESS:
+            out.append({'property': 'C11', 'status': 'known',
+                        'match': {'fn': 'link', 'arch': arch_name, 'reloc': name, 'kind': 'range_lax',
+                                  'distance': LAX_WITNESS[kind], 'addend': 0},
+                        'what': '%s %s: distance %d is not representable in the field but links and decodes as a '
+                                'wrapped (negative) offset (wrap_negative / Token.__setitem__ accept [2^(w-1), 2^w))'
+                                % (arch_name, name, LAX_WITNESS[kind])})
+        if kind == 'ThBlImm11':
+            out.append({'property': 'C11', 'status': 'known',
+                        'match': {'fn': 'link', 'arch': arch_name, 'reloc': name, 'kind': 'thumb_bl',
+                                  'distance': (1 << 22) + 4, 'addend': 0},
+                        'what': 'arm:thumb bl_imm11: asserted range is +-16 MiB but J1/J2 are never written; with the '
+                                'assembler template (J1=J2=1) a bl over >= 4 MiB links and decodes to another address'})
+        if (kind != 'X86Rel32' and kind in rc.single_specs()) or kind in PAIRS:
+            out.append({'property': 'C11', 'status': 'known',
+                        'match': {'fn': 'link', 'arch': arch_name, 'reloc': name, 'kind': 'addend_ignored',
+                                  'distance': (64 + bias) if kind not in ABSOLUTE else 0x1040, 'addend': 8},
+                        'what': '%s %s: RelocationEntry.addend is ignored by calc/apply (field designates S, not S+8)'
+                                % (arch_name, name)})
+    return out
+
+
+def link_search(ctx, n_rand):
+    """real linker vs the spec decoders. Returns records for the model correspondence."""
+    rng = ctx.rng
+    stats = {}
+    recs = []
+    for arch_name, kind in LINK_KINDS:
+        wd, scale, bias = WIDTHS[kind]
+        size = KINDS[kind][4]
+        tmpl = TEMPLATES.get(kind, [0] * size)
+        st = stats.setdefault(kind, {})
+        pool = []
+        # canonical witnesses of the known findings, executed on every run
+        if kind in LAX_WITNESS:
+            pool.append((LAX_WITNESS[kind], 0, 'lax'))
+        if kind == 'ThBlImm11':
+            pool.append(((1 << 22) + 4, 0, 'bl'))
+        if kind != 'X86Rel32' and kind in rc.single_specs() or kind in PAIRS:
+            pool.append((64 + bias if kind not in ABSOLUTE else 0x1040, 8, 'addend'))
+        for D in distance_pool(ctx, wd, scale, bias, n_rand):
+            pool.append((D, 0 if kind != 'X86Rel32' else -4, None))
+        for _ in range(3):
+            pool.append((rng.randrange(-(1 << (wd - 1)), 1 << (wd - 1)) // scale * scale + bias,
+                         rng.choice([4, -4, 8]), None))
+        for (D, A, canon) in pool:
+            if kind in ABSOLUTE and D < 0:
+                continue
+            t = tmpl if rng.randrange(3) else [rng.randrange(256) for _ in range(size)]
+            if canon or kind in ('ArmLdrImm12', 'ThBlImm11'):
+                t = tmpl      # classes that OR into / do not write part of the field: assembler template only
+            rec = link_case(ctx, arch_name, kind, D, A, t, 4 * rng.randrange(0, 4) if not canon else 4,
+                            [rng.randrange(256) for _ in range(4)] if not canon else [0, 0, 0, 0])
+            if rec is None:
+                continue
+            v = verdict(kind, rec)
+            st[v.split(':')[0] + (':' + v.split(':')[1] if v.startswith('known') else '')] = \
+                st.get(v.split(':')[0] + (':' + v.split(':')[1] if v.startswith('known') else ''), 0) + 1
+            recs.append((kind, rec, v))
+            pub = {k: rec[k] for k in ('fn', 'arch', 'reloc', 'distance', 'addend', 'template', 'offset_in_section', 'P', 'S')}
+            pub['reads'] = rec.get('reads')
+            pub['expected'] = rec.get('expected')
+            pub['how_to_replay'] = ('tools/props/c11.py build_and_link(%r, [(%r, %d, %d)], code, toff, 1<<33, S=%d): '
+                                    'ObjectFile with section code at 2^33, symbol t at S; ppci.api.link with that Layout; '
+                                    'decode bytes at offset %d of section code with reloc_common.single_specs()[%r]'
+                                    % (arch_name, rec['reloc'], rec['offset_in_section'], A, rec['S'],
+                                       rec['offset_in_section'], kind))
+            if v.startswith('violation'):
+                pub['kind'] = 'wrong_target'
+                pub['what'] = v[len('violation:'):]
+                pub['key'] = '%s:%s' % (kind, pub['what'][:40])
+                ctx.violation(pub)
+            elif canon and v.startswith('known'):
+                pub['kind'] = v[len('known:'):]
+                ctx.violation(pub)     # printed as KNOWN-FINDING when known_findings.json has the entry
+            elif canon:
+                st['canonical_witness_no_longer_fails'] = st.get('canonical_witness_no_longer_fails', 0) + 1
+    ctx.cov['stages']['link_search'] = stats
+    ctx.cov['evaluations'] += len(recs)
+    return recs
+
+
+def link_model_cases(recs, limit):
+    """model do_relocations vs the real linker on the pre-relocation snapshots of successful/failed links"""
+    cases, meta = [], []
+    name2kind = {}
+    for k, (an, mod, cn, nm, sz) in KINDS.items():
+        if nm:
+            name2kind.setdefault((an, nm), k)
+    for kind, rec, v in recs:
+        if 'snap' not in rec:
+            continue
+        snap = rec['snap']
+        ids = {n: i + 1 for i, (n, _, _) in enumerate(snap['sections'])}
+        secs, syms = kind_term(ids, snap)
+        rels = []
+        okk = True
+        for (t, sid, sn, off, add) in snap['relocations']:
+            kk = name2kind.get((rec['arch'], t)) or name2kind.get(('x86_64', t))
+            if kk is None:
+                okk = False
+                break
+            rels.append('mkRel %s %d %d %s %s' % (kk, sid, ids[sn], w(off), w(add)))
+        if not okk:
+            continue
+        term = 'match do_relocations %s %s [%s] with Ok s => Ok (secs_out s) | Diag c => Diag c | Internal e => Internal e | OutOfFuel => OutOfFuel end' % (
+            secs, syms, '; '.join(rels))
+        final = [(ids[n], a, d) for (n, a, d) in rec['final']]
+        cases.append((term, OkV([tuple(x) for x in final])))
+        meta.append((kind, rec['distance'], rec['addend']))
+        if len(cases) >= limit:
+            break
+    return cases, meta
+
+
 def run(ctx):
     rows = regen(ctx)
     ctx.cov['stages']['reloc_table'] = {
@@ -145,3 +484,29 @@ def run(ctx):
             d['ok' if isinstance(r[5], OkV) else ('diag' if r[5] is Diag else 'internal')] += 1
         ctx.cov['stages']['apply_distribution'] = dist
         ctx.cov['distinct_nontrivial'] += sum(1 for r in recs if isinstance(r[5], OkV) and r[2] != r[4])
+    # ---- proofs
+    ok, _ = ctx.build(['Proofs/C11_final.vo'])
+    if ok:
+        ctx.check_props('Props/C11.v')
+    # ---- search through the real linker (always; deeper when something failed or tier is thorough)
+    deep = (not ctx.quick()) or bool(ctx.failed_stages)
+    lrecs = link_search(ctx, 40 if deep else 5)
+    ctx.cov['distinct_nontrivial'] += sum(1 for (_, r, _) in lrecs if r['outcome'] == 'ok' and r['distance'] != 0)
+    for (k, r, v) in lrecs[:: max(1, len(lrecs) // 6)]:
+        ctx.note_sample({'reloc': r['reloc'], 'arch': r['arch'], 'distance': r['distance'], 'addend': r['addend'],
+                         'outcome': r['outcome'], 'verdict': v})
+    # ---- model of Linker.do_relocations vs the real linker on the same pre-relocation states
+    cases, meta = link_model_cases(lrecs, 1500 if deep else 400)
+    if cases:
+        bad = ctx.run_cases('dorel', ['Model.Reloc'], cases)
+        if bad:
+            ctx.log('do_relocations model/implementation disagree on', [meta[i] for i in bad[:6]])
+            ctx.failed_stages.append(('correspondence', 'Model.Reloc.do_relocations disagrees with the real linker on %d links, first %r'
+                                      % (len(bad), meta[bad[0]])))
+    ctx.cov['exhaustive'] = False
+
+
+def search(ctx):
+    from vlib import ensure_repo_on_path
+    ensure_repo_on_path()
+    link_search(ctx, 40)
